@@ -46,6 +46,9 @@ def all_templates(tree: SourceTree) -> list:
     return [f for f in tree.files() if f.startswith(TEMPLATE_ROOT + "/") and f.endswith(".j2")]
 
 
+# Jinja's built-in filter aliases: one name per filter (canonical form)
+_FILTER_ALIAS = {"count": "length", "d": "default", "e": "escape"}
+
 BIN = {nodes.Add: "+", nodes.Sub: "-", nodes.Mul: "*", nodes.Div: "/", nodes.FloorDiv: "//",
        nodes.Mod: "%", nodes.Pow: "**"}
 
@@ -66,10 +69,11 @@ def jx(n):
         return ("item", jx(n.node), jx(n.arg))
     if t is nodes.Filter:
         inner = jx(n.node)
+        name = _FILTER_ALIAS.get(n.name, n.name)
         # iterating a dict iterates its keys: `x.element_count | first` is `x.element_count.keys() | first` (canonical form)
-        if n.name in ("first", "last", "list", "length", "join", "sort") and inner[0] == "attr" and inner[2] == "element_count":
+        if name in ("first", "last", "list", "length", "join", "sort") and inner[0] == "attr" and inner[2] == "element_count":
             inner = ("call", ("attr", inner, "keys"), (), ())
-        return ("filter", n.name, inner, tuple(jx(a) for a in n.args),
+        return ("filter", name, inner, tuple(jx(a) for a in n.args),
                 tuple((k.key, jx(k.value)) for k in n.kwargs))
     if t is nodes.Test:
         return ("test", n.name, jx(n.node), tuple(jx(a) for a in n.args))
@@ -78,7 +82,11 @@ def jx(n):
     if t is nodes.Compare:
         return ("cmp", jx(n.expr), tuple((o.op, jx(o.expr)) for o in n.ops))
     if t in BIN:
-        return ("bin", BIN[t], jx(n.left), jx(n.right))
+        l, r = jx(n.left), jx(n.right)
+        # the one-based loop counters minus one are the zero-based ones: `loop.index - 1` is `loop.index0` (canonical form)
+        if t is nodes.Sub and r == ("const", 1) and l[0] == "attr" and l[1] == ("name", "loop") and l[2] in ("index", "revindex"):
+            return ("attr", l[1], l[2] + "0")
+        return ("bin", BIN[t], l, r)
     if t is nodes.Neg:
         return ("neg", jx(n.node))
     if t is nodes.Pos:
@@ -738,6 +746,70 @@ def propagate_sets(items):
                 out.append(it)
         return out
     return rec(items, {})
+
+
+def _subst_items(items, env):
+    """the items with the names of `env` replaced in every expression, as far as the names keep their meaning (Jinja scoping: a
+    `{% set %}` / loop target of the same name re-binds it for what follows / for the loop body)"""
+    env = dict(env)
+    out = []
+
+    def drop(t):
+        for n_ in names_of(t):
+            env.pop(n_, None)
+    for it in items:
+        k = it[0]
+        if not env:
+            out.append(it)
+        elif k == "out":
+            out.append(("out", subst_names(it[1], env)) + tuple(it[2:]))
+        elif k == "set":
+            out.append(("set", it[1], subst_names(it[2], env)) + tuple(it[3:]))
+            drop(it[1])
+        elif k == "setblock":
+            out.append(("setblock", it[1], tuple(_subst_items(it[2], env))) + tuple(it[3:]))
+            drop(it[1])
+        elif k == "for":
+            inner = {n_: v for n_, v in env.items() if n_ not in names_of(it[1])}
+            out.append(("for", it[1], subst_names(it[2], env), tuple(_subst_items(it[3], inner)), tuple(_subst_items(it[4], env)), it[5], it[6],
+                        subst_names(it[7], inner) if it[7] is not None else None))
+        elif k == "if":
+            out.append(("if", subst_names(it[1], env), tuple(_subst_items(it[2], env)), tuple(_subst_items(it[3], env))) + tuple(it[4:]))
+            for sub, _ in walk_items(tuple(it[2]) + tuple(it[3])):
+                if sub[0] in ("set", "setblock"):
+                    drop(sub[1])
+        else:
+            out.append(it)
+    return out
+
+
+def unmap_loops(items):
+    """`{% for a in S | map(attribute="alias") %} .. {{ a }}` is `{% for a in S %} .. {{ a.alias }}`: a loop over a chain of
+    one-to-one `map` filters (see elementwise) visits the base sequence in order, its variable standing for the mapped element;
+    positions (`loop.index0`, `loop.last`) and the number of iterations are those of the base.  The same items with such loops
+    rewritten over their base sequence (recursively; the loop variable keeps its name).  Loops whose target is not a plain name or
+    whose map chain is not understood are left as they are."""
+    out = []
+    for it in items:
+        k = it[0]
+        if k == "for":
+            body, els = unmap_loops(it[3]), unmap_loops(it[4])
+            tg, seq, test = it[1], it[2], it[7]
+            if tg[0] == "name" and seq[0] == "filter" and seq[1] == "map":
+                base, elt = elementwise(seq, tg)
+                if base != seq and not (base[0] == "filter" and base[1] == "map"):
+                    env = {tg[1]: elt}
+                    body = _subst_items(body, env)
+                    test = subst_names(test, env) if test is not None else None
+                    seq = base
+            out.append(("for", tg, seq, tuple(body), tuple(els), it[5], it[6], test))
+        elif k == "if":
+            out.append(("if", it[1], tuple(unmap_loops(it[2])), tuple(unmap_loops(it[3]))) + tuple(it[4:]))
+        elif k == "setblock":
+            out.append(("setblock", it[1], tuple(unmap_loops(it[2]))) + tuple(it[3:]))
+        else:
+            out.append(it)
+    return out
 
 
 def _walk_all(tree, rel):
